@@ -9,6 +9,7 @@ import GabiModel.Ops.Crypto
 import GabiModel.Ops.RevOps
 import GabiModel.Ops.Serial
 import GabiModel.Ops.KeyGenOps
+import GabiModel.Ops.KeyProofOps
 namespace Gabi.Ops
 open Lean Gabi Gabi.Wire
 
@@ -18,7 +19,8 @@ def handlers : List Handler := [
   Crypto.handle,
   RevOps.handle,
   Serial.handle,
-  KeyGenOps.handle
+  KeyGenOps.handle,
+  KeyProofOps.handle
 ]
 
 def run (st : State) (op : String) (j : Json) : R (State × String) :=
